@@ -28,6 +28,22 @@ CHECKS = {
             "validates each emitted text against the specification's own lexer+parser machine, whose own "
             "print/read-back theorem TLC checks on the same trees.",
             "Trusted: spec/Lex.tla, spec/OData.tla (self-checked), harness/project.py. Bounded tree size."),
+    "C10": ("DESIGN.md 6/C10",
+            "TLC-enumerated atom sequences and token mutations (MC_C10) + parametric long inputs + seeded random "
+            "Unicode, each parsed by the real lexer/parser in a killable child process; outcome alphabet, "
+            "repeatability and termination checked; spec prediction compared as drift statistics",
+            "Exhaustive for all sequences of <=3 (thorough 4) of 36 lexical atoms and all single-token mutations of "
+            "all valid filters with <=1 (thorough 2) operators; sampled for long/random inputs. The oracle is the "
+            "property's own statement, so no prediction can raise a false alarm.",
+            "Trusted: harness/project.py outcome projection; 20 s wall-clock bound per input as 'terminates' "
+            "(path length capped at 1500 segments because parsing is quadratic in path length)."),
+    "C11": ("DESIGN.md 6/C11",
+            "TLC enumerates (name, argc, style, context); expected outcome and exception payload computed by the TLA+ "
+            "parser machine from the spec's Functions table (cross-checked against the table by an invariant); "
+            "replayed into the real parser",
+            "Exhaustive: 55 names (33 built-ins, 3 geo, near-misses, custom namespaces) x argc 0..5 x 6 argument "
+            "styles x 5 contexts = 9,625 calls; outcome incl. exception payload must equal the spec's.",
+            "Trusted: spec/OData.tla Functions table (transcribed from the OData standard)."),
 }
 
 PENDING = ["C01", "C02", "C03", "C04", "C06", "C07", "C08", "C09", "C10", "C11", "C12", "C13", "C14", "C15",
